@@ -18,5 +18,10 @@ for name in sorted(M):
 table="<!--MATRIX-BEGIN-->\n"+"\n".join(rows)+"\n<!--MATRIX-END-->"
 if "%MATRIX%" in s: s=s.replace("%MATRIX%",table)
 else: s=re.sub(r"<!--MATRIX-BEGIN-->.*?<!--MATRIX-END-->",lambda m:table,s,flags=re.S)
+nseed=len(M); nfirst=sum(1 for v in M.values() if v['round1']=='caught'); nfinal=sum(1 for v in M.values() if v.get('final')=='caught')
+for k,v in (('NSEED',nseed),('NFIRST',nfirst),('NFINAL',nfinal)):
+    s=s.replace('%'+k+'%',f'<!--{k}-->{v}<!--/{k}-->')
+    s=re.sub(rf'<!--{k}-->\d+<!--/{k}-->',f'<!--{k}-->{v}<!--/{k}-->',s)
 open(p,'w').write(s)
+print(nseed,nfirst,nfinal)
 print("fix commits:",nfix,"matrix rows:",len(rows)-2)
